@@ -411,15 +411,6 @@ Proof.
     + rewrite Z.ltb_irrefl, orb_false_r. destruct g; exact H.
 Qed.
 
-Lemma wf_hist_app c h o :
-  wf_hist c (h ++ [o]) <->
-  wf_hist c h /\ op_ok (fold_left (fun c o => match op_id o with Some id => id | None => c end) h c) o.
-Proof.
-  revert c; induction h as [|a h IH]; intros c; cbn [app wf_hist fold_left].
-  - unfold op_ok. destruct (op_id o); tauto.
-  - destruct (op_id a); rewrite IH; tauto.
-Qed.
-
 Lemma inv_run h : forall g, Inv g -> wf_hist (g_clock g) h -> Inv (grun g h).
 Proof.
   induction h as [|o h IH]; intros g H W; [exact H|].
@@ -434,3 +425,369 @@ Qed.
 Theorem reachable_inv id ms en h :
   init_ok id ms -> wf_hist id h -> Inv (grun (ginit id ms en) h).
 Proof. intros Hi W. apply inv_run; [apply inv_init; assumption|exact W]. Qed.
+
+(** * Conservation *)
+
+(** The hours of the retention window (cur - limit, cur]. *)
+Definition window_hours (s : state) : list Z :=
+  zseq (cur_id s - lim s + 1) (Z.to_nat (lim s)).
+
+(** Sum of [f] over the window. *)
+Definition wsum (s : state) (f : Z -> Z) : Z := zsum (map f (window_hours s)).
+
+(** What the API reports for counter [k]: the sum over the loaded units. *)
+Definition rep (k : ctr) (s : state) : Z := zsum (map (proj k) (load_units s)).
+
+Lemma rep_get_data s :
+  d_num (get_data s) = rep CTotal s /\ num_nf s = rep (CCat NF) s /\
+  d_num_f (get_data s) = rep (CCat F) s /\ d_num_sb (get_data s) = rep (CCat SB) s /\
+  d_num_ss (get_data s) = rep (CCat SS) s /\ d_num_p (get_data s) = rep (CCat P) s.
+Proof. repeat split; reflexivity. Qed.
+
+(** The abstraction: the unit that stands for hour [i]. *)
+Definition unit_of (s : state) (i : Z) : unit :=
+  if i =? cur_id s then cur s else stored s i.
+
+Lemma window_ids_nowrap s :
+  min_id <= cur_id s < max_id -> 1 <= lim s <= 8760 ->
+  window_ids s = zseq (cur_id s - lim s + 1) (Z.to_nat (lim s - 1)).
+Proof.
+  intros Hc HL. unfold window_ids. rewrite <- (map_id (zseq _ _)) at 2.
+  apply map_ext_in. intros x Hx. apply zseq_In in Hx. unfold min_id, max_id in *.
+  apply u32_small. lia.
+Qed.
+
+Lemma window_hours_split s :
+  1 <= lim s ->
+  window_hours s = zseq (cur_id s - lim s + 1) (Z.to_nat (lim s - 1)) ++ [cur_id s].
+Proof.
+  intros HL. unfold window_hours.
+  replace (Z.to_nat (lim s)) with (S (Z.to_nat (lim s - 1))) by lia.
+  rewrite zseq_snoc. do 2 f_equal. lia.
+Qed.
+
+Lemma rep_wsum s k :
+  min_id <= cur_id s < max_id -> 1 <= lim s <= 8760 ->
+  rep k s = wsum s (fun i => proj k (unit_of s i)).
+Proof.
+  intros Hc HL. unfold rep, wsum, load_units.
+  rewrite window_ids_nowrap, window_hours_split by lia.
+  rewrite !map_app, !zsum_app, map_map. cbn [map]. unfold unit_of at 2. rewrite Z.eqb_refl.
+  f_equal. apply zsum_map_eq. intros x Hx. apply zseq_In in Hx. unfold unit_of.
+  destruct (Z.eqb_spec x (cur_id s)); [lia|reflexivity].
+Qed.
+
+Lemma window_hours_In s i : 0 <= lim s -> In i (window_hours s) <-> cur_id s - lim s < i <= cur_id s.
+Proof. intros HL. unfold window_hours. rewrite zseq_In. lia. Qed.
+
+(** Per hour: what is reported for an hour of the window is what was counted
+    in it, or nothing if the hour has been outside the window at a flush or
+    restart (or, equivalently for the sums, has no events). *)
+Lemma hour_bounds g i k :
+  Inv g -> i <= cur_id (g_st g) ->
+  (if i <=? g_low g then 0 else g_ev g i k) <= proj k (unit_of (g_st g) i) <= g_ev g i k.
+Proof.
+  intros [] Hi. pose proof (i_nonneg0 i k) as Hn. unfold unit_of.
+  destruct (Z.eqb_spec i (cur_id (g_st g))) as [->|Ne].
+  - rewrite i_cur0. destruct (_ <=? _); lia.
+  - assert (Lt : i < cur_id (g_st g)) by lia. specialize (i_db0 i k Lt). unfold stored.
+    destruct (db_get i (db (g_st g))).
+    + rewrite i_db0. destruct (_ <=? _); lia.
+    + rewrite proj_empty. destruct (Z.leb_spec i (g_low g)); lia.
+Qed.
+
+Section Conservation.
+  Variable g : gs.
+  Hypothesis HI : Inv g.
+  Local Notation s := (g_st g).
+
+  Lemma inv_bounds : min_id <= cur_id s < max_id /\ 1 <= lim s <= 8760.
+  Proof. destruct HI. pose proof (lim_bounds _ i_lim0). unfold lim. lia. Qed.
+
+  (** (a) never more than the accepted, un-cleared updates of the window *)
+  Lemma conservation_upper k : rep k s <= wsum s (fun i => g_ev g i k).
+  Proof.
+    destruct inv_bounds as [Hc HL]. rewrite rep_wsum by assumption.
+    apply zsum_map_le. intros i Hi. apply window_hours_In in Hi; [|lia].
+    apply hour_bounds; [assumption|lia].
+  Qed.
+
+  (** (b) nothing lost of hours that stayed inside the window *)
+  Lemma conservation_lower k :
+    wsum s (fun i => if i <=? g_low g then 0 else g_ev g i k) <= rep k s.
+  Proof.
+    destruct inv_bounds as [Hc HL]. rewrite rep_wsum by assumption.
+    apply zsum_map_le. intros i Hi. apply window_hours_In in Hi; [|lia].
+    apply hour_bounds; [assumption|lia].
+  Qed.
+
+  (** equality outright while the limit has not been raised *)
+  Lemma conservation_exact k :
+    g_raised g = false -> rep k s = wsum s (fun i => g_ev g i k).
+  Proof.
+    intros Hr. pose proof (conservation_upper k) as U. pose proof (conservation_lower k) as L.
+    destruct inv_bounds as [Hc HL].
+    assert (E : wsum s (fun i => if i <=? g_low g then 0 else g_ev g i k) = wsum s (fun i => g_ev g i k)).
+    { apply zsum_map_eq. intros i Hi. apply window_hours_In in Hi; [|lia].
+      pose proof (i_low g HI Hr) as Hl.
+      destruct (Z.leb_spec i (g_low g)); [lia|reflexivity]. }
+    lia.
+  Qed.
+
+  (** The reported total is the sum of the five categories. *)
+  Lemma reported_one_category :
+    rep CTotal s = rep (CCat NF) s + rep (CCat F) s + rep (CCat SB) s + rep (CCat SS) s + rep (CCat P) s.
+  Proof.
+    destruct inv_bounds as [Hc HL]. rewrite !rep_wsum by assumption.
+    unfold wsum. generalize (window_hours_In s). intros HW.
+    assert (Hu : forall i, In i (window_hours s) ->
+      proj CTotal (unit_of s i) = proj (CCat NF) (unit_of s i) + proj (CCat F) (unit_of s i) +
+        proj (CCat SB) (unit_of s i) + proj (CCat SS) (unit_of s i) + proj (CCat P) (unit_of s i)).
+    { intros i Hi. apply HW in Hi; [|lia]. destruct HI. unfold unit_of.
+      destruct (Z.eqb_spec i (cur_id s)) as [->|Ne].
+      - rewrite !i_cur0. apply i_onecat0.
+      - assert (Lt : i < cur_id s) by lia. unfold stored.
+        pose proof (fun k => i_db0 i k Lt) as D.
+        destruct (db_get i (db s)).
+        + rewrite !D. apply i_onecat0.
+        + reflexivity. }
+    clear HW. induction (window_hours s) as [|a l IH]; [reflexivity|].
+    cbn [map]. unfold zsum in *. cbn [fold_right].
+    rewrite (Hu a) by (left; reflexivity).
+    rewrite IH by (intros; apply Hu; right; assumption). lia.
+  Qed.
+End Conservation.
+
+(** * Series *)
+
+(** [C09_hourly_sums]: in every state, hourly series sum to the totals. *)
+Lemma hourly_sums s :
+  d_days (get_data s) = false ->
+  zsum (d_dns (get_data s)) = d_num (get_data s) /\
+  zsum (d_blocked (get_data s)) = d_num_f (get_data s) /\
+  zsum (d_sb (get_data s)) = d_num_sb (get_data s) /\
+  zsum (d_par (get_data s)) = d_num_p (get_data s).
+Proof.
+  unfold get_data. cbn [d_days d_dns d_blocked d_sb d_par d_num d_num_f d_num_sb d_num_p].
+  intros E. rewrite E. cbn [series]. auto.
+Qed.
+
+Lemma hourly_length s :
+  d_days (get_data s) = false -> 1 <= lim s ->
+  Z.of_nat (length (d_dns (get_data s))) = lim s.
+Proof.
+  unfold get_data. cbn [d_days d_dns]. intros E HL. rewrite E. cbn [series].
+  unfold load_units, window_ids. rewrite map_length, app_length, !map_length, zseq_length.
+  cbn [length]. lia.
+Qed.
+
+Lemma firstn_add {A} a b (l : list A) : firstn (a + b) l = firstn a l ++ firstn b (skipn a l).
+Proof.
+  revert l; induction a as [|a IH]; intros l; [reflexivity|].
+  destruct l as [|x l]; cbn [Nat.add firstn skipn app].
+  - destruct b; reflexivity.
+  - rewrite IH. reflexivity.
+Qed.
+
+Lemma zsum_chunk_sums n l : zsum (chunk_sums n l) = zsum (firstn (24 * n) l).
+Proof.
+  revert l; induction n as [|n IH]; intros l; [reflexivity|].
+  replace (24 * S n)%nat with (24 + 24 * n)%nat by lia.
+  rewrite firstn_add, zsum_app. cbn [chunk_sums]. rewrite <- IH. reflexivity.
+Qed.
+
+Definition nonneg (l : list Z) : Prop := Forall (fun x => 0 <= x) l.
+
+Lemma nonneg_skipn n l : nonneg l -> nonneg (skipn n l).
+Proof.
+  revert l; induction n as [|n IH]; intros l H; [exact H|].
+  destruct l; [exact H|]. cbn [skipn]. apply IH. inversion H; assumption.
+Qed.
+
+Lemma zsum_firstn_le n l : nonneg l -> zsum (firstn n l) <= zsum l.
+Proof.
+  intros H. rewrite <- (firstn_skipn n l) at 2. rewrite zsum_app.
+  pose proof (zsum_nonneg _ (nonneg_skipn n l H)). lia.
+Qed.
+
+Lemma zsum_skipn_le n l : nonneg l -> zsum (skipn n l) <= zsum l.
+Proof.
+  intros H. rewrite <- (firstn_skipn n l) at 2. rewrite zsum_app.
+  assert (nonneg (firstn n l)).
+  { clear -H. revert l H; induction n; intros l H; [constructor|].
+    destruct l; [constructor|]. inversion H; subst. cbn [firstn]. constructor; [assumption|apply IHn; assumption]. }
+  pose proof (zsum_nonneg _ H0). lia.
+Qed.
+
+Lemma series_le days c n l : nonneg l -> zsum (series days c n l) <= zsum l.
+Proof.
+  intros H. unfold series. destruct days; [|lia].
+  rewrite zsum_chunk_sums.
+  etransitivity; [apply zsum_firstn_le, nonneg_skipn, H|apply zsum_skipn_le, H].
+Qed.
+
+(** Counters of the loaded units of a reachable state are non-negative. *)
+Lemma loaded_nonneg g k : Inv g -> nonneg (map (proj k) (load_units (g_st g))).
+Proof.
+  intros HI. destruct (inv_bounds g HI) as [Hc HL]. destruct HI.
+  unfold load_units. rewrite window_ids_nowrap by assumption.
+  rewrite map_app. apply Forall_app. split.
+  - rewrite map_map. apply Forall_forall. intros x Hx. apply in_map_iff in Hx.
+    destruct Hx as [i [<- Hi]]. apply zseq_In in Hi.
+    assert (Lt : i < cur_id (g_st g)) by lia. specialize (i_db0 i k Lt). unfold stored.
+    destruct (db_get i (db (g_st g))).
+    + rewrite i_db0. apply i_nonneg0.
+    + rewrite proj_empty. lia.
+  - constructor; [|constructor]. rewrite i_cur0. apply i_nonneg0.
+Qed.
+
+(** [C09_daily_le_total] (reachable states, hourly or daily): no series sums
+    to more than its total. *)
+Lemma series_le_total g :
+  Inv g ->
+  zsum (d_dns (get_data (g_st g))) <= d_num (get_data (g_st g)) /\
+  zsum (d_blocked (get_data (g_st g))) <= d_num_f (get_data (g_st g)) /\
+  zsum (d_sb (get_data (g_st g))) <= d_num_sb (get_data (g_st g)) /\
+  zsum (d_par (get_data (g_st g))) <= d_num_p (get_data (g_st g)).
+Proof.
+  intros HI. unfold get_data. cbn [d_dns d_blocked d_sb d_par d_num d_num_f d_num_sb d_num_p].
+  repeat split; apply series_le.
+  - exact (loaded_nonneg g CTotal HI).
+  - exact (loaded_nonneg g (CCat F) HI).
+  - exact (loaded_nonneg g (CCat SB) HI).
+  - exact (loaded_nonneg g (CCat P) HI).
+Qed.
+
+(** * Restart *)
+
+(** Close; New in the same hour changes nothing that can be read. *)
+Lemma restart_same_hour g :
+  Inv g ->
+  let s := g_st g in
+  load_units (restart s (cur_id s)) = load_units s /\ cur_id (restart s (cur_id s)) = cur_id s /\
+  lim_ms (restart s (cur_id s)) = lim_ms s /\ enabled (restart s (cur_id s)) = enabled s.
+Proof.
+  intros HI s. destruct (inv_bounds g HI) as [Hc HL]. fold s in Hc, HL.
+  unfold min_id, max_id in *.
+  repeat split. unfold load_units. f_equal.
+  - assert (W : window_ids (restart s (cur_id s)) = window_ids s) by reflexivity.
+    rewrite W. rewrite window_ids_nowrap by (unfold min_id, max_id; lia).
+    apply map_ext_in. intros i Hi. apply zseq_In in Hi.
+    unfold stored, restart, open_db, close_db. cbn [db]. fold (lim s).
+    rewrite u32_small by lia. rewrite db_get_del_below, db_get_put.
+    destruct (Z.leb_spec (cur_id s - lim s - 1) i); [|lia].
+    destruct (Z.eqb_spec i (cur_id s)); [lia|reflexivity].
+  - f_equal. unfold restart, open_db, close_db. cbn [cur]. fold (lim s).
+    rewrite u32_small by lia. rewrite db_get_del_below, db_get_put, Z.eqb_refl.
+    destruct (Z.leb_spec (cur_id s - lim s - 1) (cur_id s)); [reflexivity|lia].
+Qed.
+
+Lemma get_data_ext s s' :
+  load_units s' = load_units s -> cur_id s' = cur_id s -> get_data s' = get_data s.
+Proof. intros E C. unfold get_data. rewrite E, C. reflexivity. Qed.
+
+(** [C09_restart]: close; new preserves the invariant with the same events
+    (the abstraction is unchanged); in the same hour the answers are equal. *)
+Lemma restart_preserves g id :
+  Inv g -> g_clock g <= id < max_id ->
+  Inv (gstep g (ORestart id)) /\
+  g_ev (gstep g (ORestart id)) = g_ev g /\
+  (id = cur_id (g_st g) ->
+   get_data (restart (g_st g) id) = get_data (g_st g) /\
+   num_nf (restart (g_st g) id) = num_nf (g_st g)).
+Proof.
+  intros HI Hc. split; [apply inv_restart; assumption|]. split; [reflexivity|].
+  intros ->. destruct (restart_same_hour g HI) as [E [C _]]. split.
+  - apply get_data_ext; assumption.
+  - unfold num_nf. rewrite E. reflexivity.
+Qed.
+
+(** * The theorems over histories *)
+
+Theorem conservation id ms en h k :
+  init_ok id ms -> wf_hist id h ->
+  let g := grun (ginit id ms en) h in
+  let s := run (init id ms en) h in
+  rep k s <= wsum s (fun i => g_ev g i k) /\
+  wsum s (fun i => if i <=? g_low g then 0 else g_ev g i k) <= rep k s /\
+  (g_raised g = false -> rep k s = wsum s (fun i => g_ev g i k)).
+Proof.
+  intros Hi W g s. pose proof (reachable_inv id ms en h Hi W) as HI. fold g in HI.
+  assert (E : s = g_st g) by (unfold s, g; rewrite grun_st; reflexivity).
+  rewrite E. split; [apply conservation_upper; assumption|].
+  split; [apply conservation_lower; assumption|apply conservation_exact; assumption].
+Qed.
+
+Theorem one_category_reported id ms en h :
+  init_ok id ms -> wf_hist id h ->
+  let s := run (init id ms en) h in
+  d_num (get_data s) =
+    num_nf s + d_num_f (get_data s) + d_num_sb (get_data s) + d_num_ss (get_data s) + d_num_p (get_data s).
+Proof.
+  intros Hi W s. pose proof (reachable_inv id ms en h Hi W) as HI.
+  assert (E : s = g_st (grun (ginit id ms en) h)) by (unfold s; rewrite grun_st; reflexivity).
+  rewrite E. apply (reported_one_category _ HI).
+Qed.
+
+Theorem daily_le_total id ms en h :
+  init_ok id ms -> wf_hist id h ->
+  let d := get_data (run (init id ms en) h) in
+  zsum (d_dns d) <= d_num d /\ zsum (d_blocked d) <= d_num_f d /\
+  zsum (d_sb d) <= d_num_sb d /\ zsum (d_par d) <= d_num_p d.
+Proof.
+  intros Hi W. pose proof (reachable_inv id ms en h Hi W) as HI.
+  cbv zeta. change (init id ms en) with (g_st (ginit id ms en)).
+  rewrite <- (grun_st (ginit id ms en) h). apply series_le_total. exact HI.
+Qed.
+
+(** * The premises are satisfiable, the conclusions not vacuous *)
+
+Definition ex_e (r : Z) : entry := {| e_res := r; e_dom := 1; e_cli := 2; e_ups := [(1, true)] |}.
+Definition ex_all5 := [OUpdate (ex_e 1); OUpdate (ex_e 2); OUpdate (ex_e 3); OUpdate (ex_e 4); OUpdate (ex_e 5)].
+
+(** Three hours with five updates each under a 48 h limit; the limit is
+    lowered to 2 h for two flushes (hour +2 is deleted), then raised again:
+    15 updates in the window, 10 reported (two undeleted hours reappear), none
+    guaranteed. *)
+Definition ex_hist : list op :=
+  ex_all5 ++ [OFlush 490001] ++ ex_all5 ++ [OFlush 490002] ++ ex_all5 ++
+  [OFlush 490003; OPutConfig (2 * ms_hour) true; OFlush 490004; OFlush 490005;
+   OPutConfig (48 * ms_hour) true; OFlush 490006].
+
+Example conservation_premises :
+  init_ok 490000 (48 * ms_hour) /\ wf_hist 490000 ex_hist /\
+  let g := grun (ginit 490000 (48 * ms_hour) true) ex_hist in
+  let s := g_st g in
+  rep CTotal s = 10 /\ wsum s (fun i => g_ev g i CTotal) = 15 /\
+  wsum s (fun i => if i <=? g_low g then 0 else g_ev g i CTotal) = 0 /\ g_raised g = true.
+Proof.
+  split; [split; [unfold min_id, max_id; lia|reflexivity]|].
+  split; [cbn [wf_hist op_id ex_hist ex_all5 app]; unfold max_id; lia|].
+  vm_compute. repeat split.
+Qed.
+
+(** Without raising the limit: hour +0 falls out of a 2 h window, 7 of 12
+    updates remain and are reported exactly; restart in between. *)
+Definition ex_hist2 : list op :=
+  ex_all5 ++ [OFlush 490001] ++ ex_all5 ++ [ORestart 490001; OUpdate (ex_e 2); ORestart 490002; OUpdate (ex_e 3)].
+
+Example conservation_exact_premises :
+  wf_hist 490000 ex_hist2 /\
+  let g := grun (ginit 490000 (2 * ms_hour) true) ex_hist2 in
+  let s := g_st g in
+  g_raised g = false /\ rep CTotal s = 7 /\ wsum s (fun i => g_ev g i CTotal) = 7 /\
+  rep (CCat F) s = 2 /\ zsum (d_dns (get_data s)) = 7 /\ d_days (get_data s) = false.
+Proof.
+  split; [cbn [wf_hist op_id ex_hist2 ex_all5 app]; unfold max_id; lia|].
+  vm_compute. repeat split.
+Qed.
+
+Example update_one_category_premises :
+  let s := init 490000 (24 * ms_hour) true in
+  accepts s (ex_e 3) = true /\ 0 <= e_res (ex_e 3) /\ u_sb (cur (update s (ex_e 3))) = 1.
+Proof. vm_compute. repeat split; discriminate. Qed.
+
+(** A negative result code passes validation (and panics in the code). *)
+Example negative_result_panics :
+  update_panics (init 490000 (24 * ms_hour) true) (ex_e (-1)) = true.
+Proof. reflexivity. Qed.
